@@ -270,8 +270,16 @@ func runC03Client(conn mpx.Conn, sc *chanScript, er *errs) {
 	wg.Wait()
 }
 
-func (sc *chanScript) srvSentAll(n int) bool { sc.mu.Lock(); defer sc.mu.Unlock(); return sc.srvSent == n }
-func (sc *chanScript) cliSentAll(n int) bool { sc.mu.Lock(); defer sc.mu.Unlock(); return sc.cliSent == n }
+func (sc *chanScript) srvSentAll(n int) bool {
+	sc.mu.Lock()
+	defer sc.mu.Unlock()
+	return sc.srvSent == n
+}
+func (sc *chanScript) cliSentAll(n int) bool {
+	sc.mu.Lock()
+	defer sc.mu.Unlock()
+	return sc.cliSent == n
+}
 
 // verify applies the C03 oracle to one finished channel.
 func (sc *chanScript) verify() error {
